@@ -62,6 +62,31 @@ RunRule(rule, mol) ==
       g0 == [atoms |-> mol.atoms, bonds |-> mol.bonds]
   IN {[m |-> m, g |-> ApplyEdits(g0, rule.edits, m)] : m \in Matches(q, mol)}
 
+\* ---- several reactants (beyond the statement of C16, which speaks of one molecule): the reactant
+\* molecules are laid side by side (atom indices of the k-th shifted by the sizes of all earlier ones), every
+\* combination of one embedding per reactant is one match, the edits may join atoms of different molecules.
+\* Cumulative = FALSE is the other design that must be told apart: the k-th molecule shifted by the size of
+\* the (k-1)-th only (it coincides with the right one for one and two reactants).
+RECURSIVE SumLen(_, _)
+SumLen(mols, k) == IF k = 0 THEN 0 ELSE Len(mols[k].atoms) + SumLen(mols, k - 1)
+Offset(mols, k, cumulative) == IF k = 1 THEN 0 ELSE IF cumulative THEN SumLen(mols, k - 1) ELSE Len(mols[k - 1].atoms)
+RECURSIVE SideBySide(_, _)
+SideBySide(mols, k) ==      \* graph of the first k molecules
+  IF k = 0 THEN [atoms |-> <<>>, bonds |-> <<>>]
+  ELSE LET g == SideBySide(mols, k - 1) off == SumLen(mols, k - 1) IN
+       [atoms |-> g.atoms \o mols[k].atoms,
+        bonds |-> g.bonds \o [j \in 1..Len(mols[k].bonds) |->
+                     [mols[k].bonds[j] EXCEPT !.a = @ + off, !.b = @ + off]]]
+RECURSIVE Combos(_, _, _, _)
+Combos(rule, mols, k, cumulative) ==     \* flat matches over the first k reactants
+  IF k = 0 THEN {<<>>}
+  ELSE LET off == Offset(mols, k, cumulative) IN
+       {c \o [i \in 1..Len(m) |-> m[i] + off] : c \in Combos(rule, mols, k - 1, cumulative),
+                                                  m \in Matches(rule.reactants[k], mols[k])}
+RunRuleN(rule, mols, cumulative) ==
+  LET n == Len(rule.reactants) g0 == SideBySide(mols, n) IN
+  {[m |-> m, g |-> ApplyEdits(g0, rule.edits, m)] : m \in Combos(rule, mols, n, cumulative)}
+
 \* ---- what balance means: on every labelled atom the change of (bond-order sum +
 \* radical electrons + formal charge) is zero  (doubled units, aromatic = 3)
 BondSum2(g, a) == LET RECURSIVE S(_)
